@@ -56,7 +56,7 @@ Section WithHash.
 
   Definition exec (sp : bytes) (s : stage) (root : node) (c : cache) : res node :=
     match alookup sp sems with
-    | None => Err
+    | None => Ok root          (* a command without effect on the project (e.g. `true`) *)
     | Some k =>
       match cat_all root c (k_srcs k) with
       | None => Err
